@@ -33,11 +33,11 @@ def node_mc(mon):
         {"module": "MC_Node", "cfg": "MC_Node_tiny.cfg", "workers": 12, "timeout": 1500, "env": env,
          "what": "exhaustive: every call of the tiny alphabet, depth 2, all renew policies", "tiers": ("thorough",)},
         {"module": "MC_Node", "cfg": "MC_Node_sim.cfg", "workers": 8, "env": env,
-         "simulate": {"quick": "-simulate num=2500 -depth 61", "thorough": "-simulate num=60000 -depth 61"},
+         "simulate": {"quick": "-simulate num=2500 -depth 61", "thorough": "-simulate num=8000 -depth 61"},
          "timeout": {"quick": 300, "thorough": 1500},
          "what": "random walks of depth 60 over the full alphabet, timers delivered exactly once in any order"},
         {"module": "MC_Node", "cfg": "MC_Node_simforge.cfg", "workers": 8, "env": env,
-         "simulate": {"quick": "-simulate num=1500 -depth 61", "thorough": "-simulate num=30000 -depth 61"},
+         "simulate": {"quick": "-simulate num=1500 -depth 61", "thorough": "-simulate num=5000 -depth 61"},
          "timeout": {"quick": 300, "thorough": 1500},
          "what": "as above plus forged / stale / duplicated timers"},
     ]
